@@ -4,6 +4,7 @@ hash_map.hpp refines the chain-level model (so the theorems hold of the pointer 
 import sys
 import vlib
 from comp.hashmap import check as hashmap
+from comp.ptrgen import check as ptrgen
 
 def main():
     c = vlib.Check("C14")
@@ -12,7 +13,9 @@ def main():
     c.assumptions = ["hash is any total function (Section variable)", "insert only of absent keys (documented precondition)",
                      "keys compared with ==; element copy/move behave as value transfer"]
     c.kind_filter = lambda k: k not in vlib.LIFETIME_KINDS     # lifetime/allocation kinds belong to C16
-    c.prove(["C14", "C14_ptr"])
+    ptrgen.run(c, ["hashmap"])    # pointer-level definitions re-translated from the current source (translator tie)
+    c.trusted = c.trusted + ptrgen.TRUSTED
+    c.prove(["C14", "C14_ptr"] + ptrgen.prop_ids(["hashmap"]))
     hashmap.run(c)
     sys.exit(c.finish())
 
